@@ -598,10 +598,15 @@ fn check_step(l: &mut Local, step: u32, exp: &WinExpect, callee: &StackFrame, ca
         }
         WinExpect::Regs { regs, or_none } => {
             let (Some(Some(eip)), Some(Some(esp))) = (regs.get("eip"), regs.get("esp")) else {
-                // the record leaves the caller's instruction or stack pointer unknown: that is no frame (whatever
-                // another technique then finds, it is not a CFI-trust frame made of the callee's stale values)
-                if cfi_caller.is_some() {
-                    l.violation(format!("{point}:cfi-frame-without-eip-or-esp"), format!("step {step}: a CFI-trust caller frame exists although the record leaves $eip or $esp without a value"), detail());
+                // the record leaves the caller's instruction or stack pointer without a value: what the unwinder
+                // then does (no frame, or a frame by another technique) is not documented; documented is that the
+                // register is unknown in the caller - a CFI-trust frame must not report it as known
+                if let Some(MinidumpContextValidity::Some(valid)) = cfi_caller.map(|f| &f.context.valid) {
+                    for r in ["eip", "esp"] {
+                        if !matches!(regs.get(r), Some(Some(_))) && valid.contains(r) {
+                            l.violation(format!("{point}:caller-validity:{r}-without-a-value-is-valid"), format!("step {step}: the record leaves ${r} without a value, yet the caller frame reports {r} as known"), detail());
+                        }
+                    }
                 }
                 return;
             };
@@ -705,7 +710,9 @@ fn walk_space() -> Space {
         check_step(l, 1, &exp1, &cs.frames[0], cs.frames.get(1), &|| detail(&cs));
         // step 2: frame 1 -> frame 2; the grand callee is frame 0, whose parameter size is the one of
         // its STACK WIN record (0xc), not the FUNC record's. The environment is the OBSERVED frame 1.
-        if let Some(f1) = cs.frames.get(1).filter(|f| f.trust == FrameTrust::CallFrameInfo) {
+        // (a step-1 record that leaves eip or esp without a value puts the walk nowhere in particular: no step 2)
+        let placed = !matches!(&exp1, WinExpect::Regs { regs, .. } if !matches!((regs.get("eip"), regs.get("esp")), (Some(Some(_)), Some(Some(_)))));
+        if let Some(f1) = cs.frames.get(1).filter(|f| placed && f.trust == FrameTrust::CallFrameInfo) {
             let rec2 = WinRecord { address: 0x2000, size: 0x100, sizes: SZ2, kind: k2 };
             let exp2 = refwin::eval_record(&rec2, &FrameEnv { f: f1, gc: true, gcps: SZ1.params });
             l.eval();
